@@ -185,14 +185,15 @@ func route(s *nodesim.Sim, algo string) {
 	case "prophet":
 		m := model.Bundle{Version: 7, CRC: 2, Flags: model.FNoFragment, Dst: model.Dtn(nodeName, ""), Src: model.Dtn("r1", ""), Rpt: model.Dtn("r1", ""),
 			Time: bubble.NowMs(), Seq: 1, Lifetime: 60000,
-			Blocks: []model.Block{{Type: model.TProphet, Num: 2, Preds: []model.PeerPred{{Peer: model.Dtn("far", "in"), Bits: 0x3fefffffffffffff}}},
+			Blocks: []model.Block{{Type: model.TProphet, Num: 2, Preds: []model.PeerPred{{Peer: model.Dtn("far", ""), Bits: 0x3fefffffffffffff}}},
 				{Type: model.TPayload, Num: 1, Data: []byte{1}}}}
 		_ = s.Deliver("r1", encodeSpec(m))
 	}
 }
 
 func rxBundle(pid string, seq uint64, now uint64, blocks []model.Block, timeMs, lifetime uint64) model.Bundle {
-	m := model.Bundle{Version: 7, CRC: 2, Dst: model.Dtn("far", "in"), Src: model.Dtn("origin", "app"), Rpt: model.Dtn("origin", "app"),
+	// DTLSR and PRoPHET look the full destination EID up in tables keyed by node IDs: use the node ID form
+	m := model.Bundle{Version: 7, CRC: 2, Dst: model.Dtn("far", ""), Src: model.Dtn("origin", "app"), Rpt: model.Dtn("origin", "app"),
 		Time: timeMs, Seq: seq, Lifetime: lifetime}
 	m.Blocks = append(m.Blocks, blocks...)
 	m.Blocks = append(m.Blocks, model.Block{Type: model.TPayload, Num: 1, CRC: 1, Data: nodesim.Payload(pid, 5)})
@@ -390,11 +391,14 @@ func waiting(r *report.Run, algo string, c waitCase, idx int) {
 				}
 			} else {
 				// sleep to the next point of the node's 10 s grid
+				// stop 1 ms short of the grid point, open the step, then let the retry job fire
 				target := attemptAt(attempt)
-				if cur := bubble.NowMs(); target > cur {
-					time.Sleep(time.Duration(target-cur) * time.Millisecond)
+				if cur := bubble.NowMs(); target-1 > cur {
+					time.Sleep(time.Duration(target-1-cur) * time.Millisecond)
 				}
+				s.Wait()
 				s.Step("retry_tick", fmt.Sprint(attempt))
+				time.Sleep(time.Millisecond)
 				s.Wait()
 			}
 			var copies []nodesim.SendRec
@@ -416,17 +420,30 @@ func waiting(r *report.Run, algo string, c waitCase, idx int) {
 					r.Violation("c06.sent-although-"+cls, fmt.Sprintf("bundle was transmitted in attempt %d although it is %s", attempt, cls), wit())
 					return
 				}
-				if attempt >= 1 || sp.refused != "" {
-					if knows(s, sp.m) {
-						cls := "expired"
-						if sp.refused != "" {
-							cls = "refused"
-						}
-						r.Violation("c06.kept-although-"+cls, fmt.Sprintf("bundle is still in the store after attempt %d although it is %s", attempt, cls), wit())
-						return
-					}
+				if sp.refused != "" && knows(s, sp.m) {
+					r.Violation("c06.kept-although-refused", fmt.Sprintf("bundle is still in the store after attempt %d although it is refused for cause", attempt), wit())
+					return
 				}
 				r.Count("not_sent.as_expected", 1)
+				if attempt == 3 && sp.refused == "" {
+					// an expired bundle is dropped by the dispatcher or, at the latest, by the next store-cleaning run
+					s.Tick(10 * time.Minute)
+					for _, rec := range s.Sends() {
+						if rec.PID == pid && rec.AtMs > attemptAt(c.lifeAttempt) {
+							r.Violation("c06.sent-although-expired", "bundle was transmitted after its lifetime had ended", wit())
+							return
+						}
+					}
+					if knows(s, sp.m) {
+						cls := "by-time"
+						if c.zero {
+							cls = "by-age"
+						}
+						r.Violation("c06.kept-although-expired:"+cls, "expired bundle is still in the store after a store-cleaning run", wit())
+						return
+					}
+					r.Count("expired.dropped_from_store", 1)
+				}
 				continue
 			}
 			if (algo == "dtlsr" || algo == "prophet" || algo == "spray" || algo == "binary_spray") && len(copies) == 0 {
@@ -466,11 +483,10 @@ func TestCheck(t *testing.T) {
 	// full triangle 0 <= count <= limit <= 255, 8 limits per case
 	for _, a := range algos {
 		a := a
-		r.Group("hop-"+a, 32, func(i int, rng *report.Rand) {
-			var limits []int
-			for l := i; l < 256; l += 32 {
-				limits = append(limits, l)
-			}
+		r.Group("hop-"+a, 128, func(i int, rng *report.Rand) {
+			// two limits per node (i and 255-i): every node handles 257 bundles
+			limits := []int{i, 255 - i}
+
 			hopTriangle(r, a, limits)
 		})
 	}
